@@ -134,7 +134,7 @@ func main() { os.Exit(runC08()) }
 
 func runC08() int {
 	run := ev.New("C08", ev.ArgTier(), "exploration")
-	run.Rule("scope-only programs built with the idl model (one struct + 10-20 scopes per file): scope names lower/Upper/camel/UpperCamel/snake/Upper_snake/ALLCAPS/ALLCAPS_SNAKE, operation names likewise, prefixes of 0-4 '.'-separated tokens with 0-3 variables in any position, payloads struct/i32/string; each file compiled for go, java, dart, py, py:asyncio, py:tornado once per -delim value (the white space after the `prefix` keyword varies per scope: one blank, two blanks, tab, newline, blank-tab-blank, comment); each (scope, op, delim) run with 1 (no variable) or 3-6 tuples of variable values over [A-Za-z0-9_-]{0,12} (classes mixed / one empty / edge; thorough adds all-empty and special characters); plus a fixed hand-written witness file; thorough adds '%' as delimiter and prefix words with %, quotes, backslash, $; one evaluation = one (scope, op, delim, values) tuple compared across all languages and the reference; distinct = scope-name class x prefix shape x delimiter")
+	run.Rule("scope-only programs built with the idl model (one struct + 10-20 scopes per file): scope names lower/Upper/camel/UpperCamel/snake/Upper_snake/ALLCAPS/ALLCAPS_SNAKE, operation names likewise, prefixes of 0-4 '.'-separated tokens with 0-3 variables in any position, two scopes in three that have a variable also get one or two static words spelled exactly like a variable of the same prefix (key/value style `tenant.{tenant}`, `{zone}.zone`) or containing its name (`users.{user}`), replacing a word or inserted before / after the variable or at the far end, payloads struct/i32/string; each file compiled for go, java, dart, py, py:asyncio, py:tornado once per -delim value (the white space after the `prefix` keyword varies per scope: one blank, two blanks, tab, newline, blank-tab-blank, comment); each (scope, op, delim) run with 1 (no variable) or 3-6 tuples of variable values over [A-Za-z0-9_-]{0,12} (classes mixed / one empty / edge; thorough adds all-empty and special characters); plus a fixed hand-written witness file; thorough adds '%' as delimiter and prefix words with %, quotes, backslash, $; one evaluation = one (scope, op, delim, values) tuple compared across all languages and the reference; distinct = scope-name class x prefix shape x delimiter")
 	run.Assume("reference topic = prefix as written in the IDL with {variables} substituted ⊕ delim ⊕ scope name as written ⊕ delim ⊕ operation name, nothing before the scope for an empty prefix. Reading of the documentation: README 'Prefixes' documents <scope>.<operation> and foo.bar.Events.EventCreated for the default delimiter only, and `-delim` is described as 'the delimiter for pub/sub topic tokens'; nothing says that the '.' written between prefix tokens in the IDL is rewritten, and none of the six generators rewrites it, so the reference keeps the prefix verbatim and uses the delimiter only between prefix, scope and operation")
 	run.Assume("Go: emitted publishers/subscribers executed through reflection against recording FPublisherTransport/FSubscriberTransport; constructors found by go/ast in the emitted files, methods by their Publish/Subscribe + operation-name method names")
 	run.Assume("Python: emitted modules executed unmodified in CPython with stub thrift/frugal/tornado modules (py/stubs2/c08stubs.py); py and py:asyncio under python3, py:tornado under python 2.7.18 when available")
@@ -146,6 +146,7 @@ func runC08() int {
 
 	// ---- workload
 	rng := run.Rand("c08-workload")
+	twinRng := run.Rand("c08-twin-tokens")
 	others := []string{"/", "-", "_", ":", "|"}
 	delims := []string{"."}
 	if thorough {
@@ -161,7 +162,7 @@ func runC08() int {
 	}
 	batches := witnessBatches()
 	for i := 0; i < nb; i++ {
-		b := genBatch(rng, fmt.Sprintf("c08b%03d", i), per, thorough, "")
+		b := genBatch(rng, twinRng, fmt.Sprintf("c08b%03d", i), per, thorough, "")
 		b.Delims = append([]string(nil), delims...)
 		if thorough && i < 10 {
 			b.Delims = append(b.Delims, "%")
@@ -170,7 +171,7 @@ func runC08() int {
 	}
 	if thorough {
 		for i, kind := range exoticKindOrder {
-			b := genBatch(rng, fmt.Sprintf("c08x%d%s", i, strings.ReplaceAll(kind, "_", "")), 16, thorough, kind)
+			b := genBatch(rng, twinRng, fmt.Sprintf("c08x%d%s", i, strings.ReplaceAll(kind, "_", "")), 16, thorough, kind)
 			b.Delims = []string{"."} // one stress class at a time: '%' as delimiter is exercised on core scopes
 			batches = append(batches, b)
 		}
@@ -183,6 +184,18 @@ func runC08() int {
 		}
 	}
 	run.Set("scopes", nScopes)
+	twins, nears := 0, 0
+	for _, b := range batches {
+		for _, sp := range b.Scopes {
+			if strings.Contains(sp.PrefixShape, "t") {
+				twins++
+			} else if strings.Contains(sp.PrefixShape, "n") {
+				nears++
+			}
+		}
+	}
+	run.Set("scopes_with_static_word_named_like_variable", twins)
+	run.Set("scopes_with_static_word_containing_variable_name", nears)
 	run.Set("batches", len(batches))
 	run.Set("compilation_units", len(c.units))
 	run.Set("delimiters", delims)
